@@ -17,7 +17,11 @@ def enum_plans(tier):
     th = tier == "thorough"
     # every history over {tick, CER, DWA, DWR}: watchdog timing at every offset, node-level and per-peer timers
     from .c09_plan import _cer
+    from .c09_plan import two_ready_prefix
     return [dict(cfg="A", depth=9 if th else 8, maxtime=9 if th else 8, alpha=["cerok", "dwa"], maxconn=1),
+            # two ready connections: one keeps the node busy (traffic every second, select() never times out) while the other idles
+            dict(cfg="HOLD2", depth=8 if th else 6, maxtime=8 if th else 6, alpha=["dwr"], maxconn=2, prefix=two_ready_prefix()),
+            dict(cfg="W2", depth=11 if th else 10, maxtime=6, alpha=["dwr2"], maxconn=2, prefix=two_ready_prefix()),
             # the peer stops reading (and sending) with output still queued for it: the watchdog still runs its course
             dict(cfg="A", depth=11 if th else 9, maxtime=9 if th else 8, alpha=["stall", "req1"], maxconn=1,
                  prefix=[{"a": "connect"}, {"a": "feed", "c": 1, "ms": [_cer("p1.r1")]}]),
